@@ -97,6 +97,9 @@ def judgeMatch (proto payload impl : String) : Verdict :=
     but it must not reach a point inside one (`*.mid`), nor finish. -/
 def judgeExcl (_payload impl : String) : Verdict :=
   let ok := match Sx.parse impl with
+    | some (.list (.atom "hold" :: .list [.atom "maxinside", k] :: rest)) =>
+      -- the hold policy: somebody reached the region, and never two at once
+      k.toStr == "1" && !rest.any (fun x => x.toStr == "deadlock" || x.toStr == "panic")
     | some (.list [.atom "excl", .atom "reached", .list (.atom "after" :: steps)]) =>
       let names := steps.filterMap fun | .atom a => some a | _ => none
       names.length == steps.length && names.getLast? == some "blocked" &&
